@@ -23,11 +23,11 @@ prop("C07",
      harness="c07_osmaposl",
      runs={
          "quick": [dict(flavour="asan", cases=2400), dict(flavour="rel", cases=16000)],
-         "thorough": [dict(flavour="asan", cases=5000), dict(flavour="rel", cases=35000)],
+         "thorough": [dict(flavour="asan", cases=4000), dict(flavour="rel", cases=30000)],
      },
-     min_nontrivial={"quick": 12000, "thorough": 25000},
+     min_nontrivial={"quick": 12000, "thorough": 22000},
      min_obs={"quick": _min_obs_quick,
-              "thorough": {k: 3 * v for k, v in _min_obs_quick.items()}},
+              "thorough": {k: int(2.2 * v) for k, v in _min_obs_quick.items()}},
      rule=("case = one generated configuration and one real OSMAPOSLReconstruction run through the public C++ API (set_up + "
            "reconstruct(target)): cylindrical scanner with 8..24(28) detectors, 1..3 rings, span 1, all or no oblique segments, 3..11 "
            "tangential positions, image 5x5..9x9 x (2 rings - 1) planes, ray-tracing matrix with a random subset of its symmetry "
